@@ -265,6 +265,50 @@ def run_harness(prop, tier, seed, scale, hot):
     return agg
 
 
+def call_closure(specs):
+    """(closure set, report dict by name) of the call graph of lean/.work/effects_report.json from `specs`."""
+    p = os.path.join(core.LEAN_DIR, '.work', 'effects_report.json')
+    try:
+        rep = json.load(open(p))
+    except Exception:       # noqa
+        return set(specs), {}
+    by = {f['name']: f for f in rep.get('functions', [])}
+    todo = [s_ for s_ in specs if s_ in by]
+    seen = set(specs)
+    done = set()
+    while todo:
+        f = todo.pop()
+        if f in done:
+            continue
+        done.add(f)
+        seen.add(f)
+        todo.extend(c for c in by[f].get('callees', []) if c in by and c not in done)
+    return seen, by
+
+
+def dependency_props(prop, specs, changed):
+    """Other properties whose modelled functions include a CHANGED function that this property's code reaches.
+    Their correspondence runs are then part of this property's failing-input search: this property's model
+    mirrors those helpers, so if their tie to the code breaks, so does this one's."""
+    closure, by = call_closure(specs)
+    files = set(c.split(':')[0] for c in closure)
+    ch = [c for c in changed if c in closure or (c not in by and c.split(':')[0] in files)]
+    deps = []
+    if not ch:
+        return deps, ch
+    for i in range(1, 20):          # C20 has its own machinery
+        q = 'C%02d' % i
+        if q == prop:
+            continue
+        try:
+            m = importlib.import_module(q.lower())
+        except Exception:   # noqa
+            continue
+        if set(getattr(m, 'FUNCTIONS', [])) & set(ch):
+            deps.append(q)
+    return deps, ch
+
+
 def purity_closure(specs):
     """Functions reachable from `specs` (call graph of lean/.work/effects_report.json) that the effect
     analysis does not accept."""
@@ -390,6 +434,21 @@ def main():
         broken.append({'theorems': lean['failed'], 'log': lean['log'][-1500:]})
     if agg['n_mism']:
         broken.append({'correspondence': agg['mism'][:5], 'count': agg['n_mism']})
+    # dependency cross-check: a changed helper that this property's code reaches and that ANOTHER property models
+    if fp['changed']:
+        deps, ch = dependency_props(prop, getattr(mod, 'FUNCTIONS', []), fp['changed'])
+        for q in deps[:4]:
+            modq = importlib.import_module(q.lower())
+            aggq = run_harness(q, 'quick', seed, 1.0, hot)
+            newq = [f for f in aggq['pred_fail'] if not match_known(f, known, q, modq)]
+            log('[S] dependency %s (models changed helper(s) %s): %d mismatches, %d new predicate failures' % (
+                q, ', '.join(c.split(':')[1] for c in ch[:3]), aggq['n_mism'], len(newq)))
+            if aggq['n_mism'] or newq:
+                broken.append({'dependency': q, 'changed_helpers': ch[:6], 'mismatches': aggq['mism'][:3],
+                               'predicate_failures': newq[:3],
+                               'why': 'a helper this property\'s code calls changed, and the check of the property that '
+                                      'models it (%s) no longer ties it to the code / finds it violating its own clauses; '
+                                      'this property\'s model mirrors that helper' % q})
     if impure:
         broken.append({'purity': impure[:20], 'why': 'functions in the call closure of the modelled code are not accepted '
                        'by the effect analysis (hidden state / writes to arguments, globals or self in a non-mutator); '
